@@ -163,8 +163,14 @@ func (h *holderProc) stop(sig string, wait time.Duration) bool {
 	case <-h.exited:
 		return true
 	case <-time.After(wait):
-		_ = h.cmd.Process.Kill()
-		<-h.exited
+		// what is it doing? SIGQUIT makes the Go runtime print every goroutine before it exits
+		_ = h.cmd.Process.Signal(syscall.SIGQUIT)
+		select {
+		case <-h.exited:
+		case <-time.After(3 * time.Second):
+			_ = h.cmd.Process.Kill()
+			<-h.exited
+		}
 		return false
 	}
 }
@@ -210,7 +216,7 @@ func runC19(tb report.TB, rep *report.Reporter, c c19Case) {
 	failCmds := [][]string{{"bug", "show", "ffffffffffffff"}, {"bug", "rm"}, {"bug", "status", "close", "zzzz"}, {"bug", "comment", "new", "0000000", "-m", "x", "--non-interactive"}, {"bug", "sort:nonsense"}, {"bug", "title", "edit", "1234567", "-t", "t", "--non-interactive"}}
 	refsOf := func() string { return RunGit(dir, "for-each-ref").Out }
 
-	refusals, recoveries, kills := 0, 0, 0
+	refusals, recoveries, kills, holderDied := 0, 0, 0, 0
 	var kinds []string
 	staleLive := false // a stale lock naming a live foreign process is in place
 	for i, s := range c.Steps {
@@ -240,6 +246,14 @@ func runC19(tb report.TB, rep *report.Reporter, c c19Case) {
 				h2, err := startHolder(dir, true)
 				if err != nil {
 					tb.Fatalf("harness: %v", err)
+				}
+				if h2.announced && holderAlive && !holder.alive() {
+					// the first web UI ended on its own (it announces itself before it binds its port, and a port picked a
+					// moment ago can be taken by another process meanwhile): nobody held the repository any more
+					h2.stop("KILL", 5*time.Second)
+					holder = nil
+					holderDied++
+					continue
 				}
 				if h2.announced {
 					h2.stop("KILL", 5*time.Second)
@@ -275,7 +289,7 @@ func runC19(tb report.TB, rep *report.Reporter, c c19Case) {
 			clean := holder.stop(s.Signal, 45*time.Second) // generous: a loaded machine must not turn a slow shutdown into an alarm
 			if s.Signal != "KILL" {
 				if !clean {
-					if fail(i, "holder-ignores-signal/"+s.Signal, "did not exit within 45s") {
+					if fail(i, "holder-ignores-signal/"+s.Signal, "did not exit within 45s\n"+truncate(holder.output.String(), 4000)) {
 						return
 					}
 				}
@@ -301,6 +315,12 @@ func runC19(tb report.TB, rep *report.Reporter, c c19Case) {
 			res := RunCLI(dir, args...)
 			lockAfter, hasLock := readLock(dir)
 			announced := holderAlive && holder.announced
+			if announced && !holder.alive() {
+				// the holder ended on its own before or while the command ran (see above): no verdict on this step
+				holder = nil
+				holderDied++
+				continue
+			}
 			switch {
 			case announced || staleLive:
 				refusals++
@@ -412,7 +432,7 @@ func runC19(tb report.TB, rep *report.Reporter, c c19Case) {
 			_ = os.Remove(filepath.Join(dir, ".git", "git-bug", "lock"))
 		}
 	}
-	rep.Case(strings.Join(kinds, ","), refusals > 0 && recoveries > 0, []string{fmt.Sprintf("identity:%v", c.Identity), fmt.Sprintf("refusals:%d", min(refusals, 3)), fmt.Sprintf("recoveries:%d", min(recoveries, 3)), fmt.Sprintf("kills:%d", min(kills, 2))}, c)
+	rep.Case(strings.Join(kinds, ","), refusals > 0 && recoveries > 0, []string{fmt.Sprintf("identity:%v", c.Identity), fmt.Sprintf("refusals:%d", min(refusals, 3)), fmt.Sprintf("recoveries:%d", min(recoveries, 3)), fmt.Sprintf("kills:%d", min(kills, 2)), fmt.Sprintf("holder-ended-on-its-own:%v", holderDied > 0)}, c)
 }
 
 func TestC19Lock(t *testing.T) {
